@@ -270,6 +270,21 @@ def noteArity (a n : Nat) : IM Unit := do
   let o ← IM.getObj a
   IM.flag { arity := decide (o.arity ≠ n) }
 
+def funArgNote (c : ICtx) (D : Env) (f : Expr) (n : Nat) : IM (Nat × Env) := do
+  let fa ← funArg ev c D f
+  noteArity fa.1 n
+  pure fa
+
+def funArgCheck (c : ICtx) (D : Env) (f : Expr) (n : Nat) : IM (Nat × Env) := do
+  let fa ← funArg ev c D f
+  checkArity fa.1 n
+  pure fa
+
+def funArgEvalNote (c : ICtx) (D : Env) (f : Expr) (n : Nat) : IM (Nat × Env) := do
+  let fa ← funArgEval ev c D f
+  noteArity fa.1 n
+  pure fa
+
 /-- `for item in …: result = func(item); yield from result` -/
 def hofForEach (c : ICtx) (a : Nat) : Env → Seq → Seq → IM (Seq × Env)
   | D, acc, [] => pure (acc, D)
@@ -407,38 +422,32 @@ def step (e : Expr) (c : ICtx) (D : Env) : IM (Seq × Env) :=
     let xs ← ev a c D
     mapLoop ev c b xs.2 [] xs.1
   | .forEach s f => do
-    let fa ← funArg ev c D f
-    noteArity fa.1 1
+    let fa ← funArgNote ev c D f 1
     let xs ← ev s c fa.2
     hofForEach cfg ev c fa.1 xs.2 [] xs.1
   | .filter s f => do
-    let fa ← funArg ev c D f
-    noteArity fa.1 1
+    let fa ← funArgNote ev c D f 1
     let xs ← ev s c fa.2
     hofFilter cfg ev c fa.1 xs.2 [] xs.1
   | .foldL s z f => do
-    let fa ← funArg ev c D f
-    checkArity fa.1 2
+    let fa ← funArgCheck ev c D f 2
     let zero ← ev z c fa.2
     let xs ← ev s c zero.2
     hofFoldLeft cfg ev c fa.1 xs.2 zero.1 xs.1
   | .foldR s z f => do
-    let fa ← funArg ev c D f
-    checkArity fa.1 2
+    let fa ← funArgCheck ev c D f 2
     let zero ← ev z c fa.2
     let xs ← ev s c zero.2
     hofFoldRightRev cfg ev c fa.1 xs.2 zero.1 xs.1.reverse
   | .pairs s1 s2 f => do
-    let fa ← funArg ev c D f
-    checkArity fa.1 2
+    let fa ← funArgCheck ev c D f 2
     let xs ← ev s1 c fa.2
     -- zip() pulls the first sequence first and stops when it is exhausted
     if xs.1.isEmpty then pure ([], xs.2) else do
       let ys ← ev s2 c xs.2
       hofPairs cfg ev c fa.1 ys.2 [] (xs.1.zip ys.1)
   | .sortK s f => do
-    let fa ← funArgEval ev c D f
-    noteArity fa.1 1
+    let fa ← funArgEvalNote ev c D f 1
     let xs ← ev s c fa.2
     if xs.1.length < 2 then pure (xs.1, xs.2) else do
       let ks ← hofKeys cfg ev c fa.1 xs.2 [] xs.1
@@ -460,7 +469,7 @@ def eval (cfg : Cfg) : Nat → Expr → ICtx → Env → IM (Seq × Env)
 structure Outcome where
   result : Except Err Seq
   flags : Flags
-  deriving Repr
+  deriving Repr, DecidableEq
 
 /-- a whole program on the tree described by `cfg` -/
 def implEval (cfg : Cfg) (fuel : Nat) (p : Expr) : Outcome :=
